@@ -309,6 +309,9 @@ func (interp *Interpreter) cfg(root *node, sc *scope, importPath, pkgName string
 			n.findex = -1
 			n.val = nil
 			sc = sc.pushBloc()
+			if n != root {
+				sc.global = false // a nested block is a local scope, also when evaluated interactively
+			}
 
 			if n.anc != nil && n.anc.kind == rangeStmt {
 				lk := n.child[0]
@@ -410,6 +413,7 @@ func (interp *Interpreter) cfg(root *node, sc *scope, importPath, pkgName string
 
 		case caseClause:
 			sc = sc.pushBloc()
+			sc.global = false // local to the statement, also when evaluated interactively
 			if sn := n.anc.anc; sn.kind == typeSwitch && sn.child[1].action == aAssign {
 				// Type switch clause with a var defined in switch guard.
 				var typ *itype
@@ -439,9 +443,11 @@ func (interp *Interpreter) cfg(root *node, sc *scope, importPath, pkgName string
 
 		case commClauseDefault:
 			sc = sc.pushBloc()
+			sc.global = false // local to the statement, also when evaluated interactively
 
 		case commClause:
 			sc = sc.pushBloc()
+			sc.global = false // local to the statement, also when evaluated interactively
 			if len(n.child) > 0 && n.child[0].action == aAssign {
 				ch := n.child[0].child[1].child[0]
 				var typ *itype
@@ -567,6 +573,7 @@ func (interp *Interpreter) cfg(root *node, sc *scope, importPath, pkgName string
 
 		case forStmt0, forStmt1, forStmt2, forStmt3, forStmt4, forStmt5, forStmt6, forStmt7, forRangeStmt:
 			sc = sc.pushBloc()
+			sc.global = false // local to the statement, also when evaluated interactively
 			sc.loop, sc.loopRestart = n, n.lastChild()
 
 		case funcLit:
@@ -688,6 +695,7 @@ func (interp *Interpreter) cfg(root *node, sc *scope, importPath, pkgName string
 
 		case ifStmt0, ifStmt1, ifStmt2, ifStmt3:
 			sc = sc.pushBloc()
+			sc.global = false // local to the statement, also when evaluated interactively
 
 		case switchStmt, switchIfStmt, typeSwitch:
 			// Make sure default clause is in last position, the others keeping their order.
@@ -698,6 +706,7 @@ func (interp *Interpreter) cfg(root *node, sc *scope, importPath, pkgName string
 				c[l] = d
 			}
 			sc = sc.pushBloc()
+			sc.global = false // local to the statement, also when evaluated interactively
 			sc.loop = n
 
 		case importSpec:
@@ -1006,7 +1015,7 @@ func (interp *Interpreter) cfg(root *node, sc *scope, importPath, pkgName string
 
 		case defineXStmt:
 			wireChild(n)
-			if sc.def == nil {
+			if sc.def == nil && sc.global {
 				// In global scope, type definition already handled by GTA. The generator
 				// of the source, reset by the post-order processing of its node, is set again.
 				switch src := n.lastChild(); {
